@@ -299,6 +299,7 @@ def installed(module, fs):
 class GhostFile:
     def __init__(self, fs, path, base):
         self._fs, self._path, self._base = fs, path, tuple(base)
+        self._evpath = path   # events are labelled with the name the file was opened under (as the real twin does)
         self.pieces = []  # [token, written, total]
         self.closed = False
         self.name = path
@@ -319,7 +320,7 @@ class GhostFile:
         return 1
 
     def flush(self):
-        self._fs._ev("flush", self._fs.base(self._path))
+        self._fs._ev("flush", self._fs.base(self._evpath))
 
     def fileno(self):
         return 1000 + id(self) % 1000
@@ -331,7 +332,7 @@ class GhostFile:
         if self.closed:
             return
         fs = self._fs
-        fs._ev("close", fs.base(self._path))
+        fs._ev("close", fs.base(self._evpath))
         self.closed = True
         fs._handles.pop(self._path, None)
         if not self.pieces:
@@ -411,7 +412,7 @@ class GhostFS(_FS):
             raise _model_error(ValueError("I/O operation on closed file."))
         piece = [text.obj, 0, self.steps]
         for i in range(self.steps):
-            self._ev("write", self.base(fp._path), "%d/%d" % (i + 1, self.steps))
+            self._ev("write", self.base(getattr(fp, "_evpath", fp._path)), "%d/%d" % (i + 1, self.steps))
             if i == 0:
                 fp.pieces.append(piece)
             piece[1] = i + 1
@@ -421,11 +422,22 @@ class GhostFS(_FS):
     def _rename(self, s, d):
         if s not in self.files:
             raise _model_error(FileNotFoundError(2, "No such file or directory", s))
-        if s in self._handles or d in self._handles:
-            self.undecided("rename of a file that is still open")
+        if d in self._handles:
+            self.undecided("rename onto a file that is still open")
         if s == d:
             return
         self.files[d] = self.files.pop(s)
+        if s in self._handles:
+            # POSIX: the open handle follows the file (inode), which now lives under the new name and stays
+            # incomplete (its buffered tail is lost by a crash) until close
+            h = self._handles.pop(s)
+            h._path = d
+            self._handles[d] = h
+            if s in self._before_open:
+                self._before_open[d] = self._before_open.pop(s)
+            kind, content = self.files[d]
+            if kind == COMPLETE:
+                self.files[d] = (PARTIAL, content)
 
     def _remove(self, p):
         if p not in self.files:
@@ -466,6 +478,9 @@ class RealFile:
             return
         self._fs._ev("close", self._fs.base(self._path))
         self.__dict__["_done"] = True
+        pend = self.__dict__.pop("_pending", None)
+        if pend:
+            self._fh.write(pend)   # the user-space buffer reaches the file only on close
         self._fh.close()
 
     def __enter__(self):
@@ -507,8 +522,11 @@ class RealFS(_FS):
         for i in range(self.steps):
             self._ev("write", self.base(fp._path), "%d/%d" % (i + 1, self.steps))
             hi = cuts[i + 1]
-            if i == self.steps - 1 and self.crash_at is not None and self.crash_at == len(self.events):
+            if i == self.steps - 1:
+                # the final byte stays in the user-space buffer until close(): a process that dies before close
+                # (even after a rename of the still-open file) leaves a strict prefix
                 hi = n - 1
+                fp.__dict__["_pending"] = text[n - 1:]
             fp._fh.write(text[cuts[i]:hi])
 
     def _rename(self, s, d):
